@@ -827,7 +827,7 @@ func windowSplices(rc *core.RC, field string) {
 				}
 				n++
 				rc.Touch(p.FuncName(fd))
-				key := fmt.Sprintf("%s/splice %s", p.FuncName(fd), core.Clip(core.Src(p.Fset, as.Rhs[0]), 50))
+				key := fmt.Sprintf("%s/splice %s", p.FuncName(fd), core.Clip(core.Shape(p.Fset, info, fd, as.Rhs[0]), 50))
 				if !understood || !delta.OK {
 					// try again evaluating inserted lengths by hand (len(ident))
 					delta = core.LinConst(0)
